@@ -93,6 +93,7 @@ step = st.one_of(
     st.tuples(st.just("registered")),
     st.tuples(st.just("unregister_instance")),
     st.tuples(st.just("unregister_daemon_object")),
+    st.tuples(st.just("give_marshal"), st.sampled_from([0, 1, 2, 3, 4])),
     st.tuples(st.just("drop"), st.sampled_from([0, 1, 2, 3, 4])),
     st.tuples(st.just("daemon_ping")),
 ).map(list)
@@ -353,6 +354,14 @@ def run_case(case, servertype=None, keep=False):
                 if cur is not None and not (res[0] == "ok" and res[1] in ids_of(k)):
                     viol("uri-for-registered", "%s: object is registered under %r, got %r" % (label, cur, res))
                     break
+            elif op == "give_marshal":
+                # ANOTHER client, one that uses the marshal serializer (no auto-proxy support: it gets the object by value or an
+                # error - not judged), asks for the same object: that must not change what everybody else gets afterwards
+                try:
+                    with live.proxy(srv.uri("relay"), serializer="marshal") as pm:
+                        pm.give(s[1])
+                except Exception:
+                    pass
             elif op == "give":
                 k = s[1]
                 if k in murky:
@@ -450,6 +459,8 @@ def _labels(case):
 
 
 CATALOGUE = [
+    [["register", 0, "x", False, False], ["give", 0], ["give_marshal", 0], ["give", 0], ["uri", 0], ["call", "x"], ["registered"]],
+    [["register", 1, None, False, True], ["give_marshal", 1], ["give", 1], ["call", "gen0"], ["give_marshal", 4], ["register", 4, "y", False, False], ["give_marshal", 4], ["give", 4]],
     [["register", 0, "x", False, True], ["register", 2, "y", False, False], ["unregister_obj", 2], ["give", 0], ["call", "x"], ["give", 2], ["registered"]],
     [["register", 0, "x", False, True], ["register", 2, "y", False, False], ["unregister_id", "y"], ["give", 0], ["uri", 0], ["call", "x"]],
     [["register", 1, "x", False, False], ["register", 3, "y", False, True], ["unregister_id", "y"], ["give", 1], ["give", 3], ["unregister_obj", 1], ["give", 1]],
